@@ -74,3 +74,68 @@ func Malform(r *core.Rng, d *Doc) bool {
 	}
 	return true
 }
+
+// Invalid describes a precise malformation: the scanner must stop exactly at
+// one known line (C07: "ends at the first line that cannot continue it; that
+// line and everything after it are returned unconsumed").
+type Invalid struct {
+	Item int `json:"item"` // index of the damaged dump in Doc.Items
+	// Marker is a unique text: the stop line is the line containing it
+	// (After == false) or the line following that one (After == true).
+	Marker  string `json:"marker"`
+	After   bool   `json:"after"`
+	WantErr bool   `json:"want_error"` // a parse error is reported (else the dump just ends)
+	Kind    string `json:"kind"`
+}
+
+// MalformPrecise damages one dump so that the stop line is known. Returns nil
+// if no suitable dump exists.
+func MalformPrecise(r *core.Rng, d *Doc, tag int) *Invalid {
+	var idx []int
+	for i, it := range d.Items {
+		if it.Kind == "race" || (it.Kind == "dump" && it.Indent == "") {
+			idx = append(idx, i)
+		}
+	}
+	if len(idx) == 0 {
+		return nil
+	}
+	ii := idx[r.Intn(len(idx))]
+	it := &d.Items[ii]
+	if it.Kind == "race" {
+		if r.Chance(0.5) {
+			m := fmt.Sprintf("Previous write at 0x00c0%08x by goroutine %d:", tag, it.Ops[0].ID)
+			it.Creates = append(it.Creates, RaceSec{ID: -1, Header: m, Frames: []Frame{{Func: "  main.f()", File: "      /x/y.go:1 +0x1"}}})
+			return &Invalid{Item: ii, Marker: m, WantErr: true, Kind: "race: operation section after a creation section"}
+		}
+		m := fmt.Sprintf("Goroutine %d (running) created at:", 900000000+tag)
+		it.Creates = append(it.Creates, RaceSec{ID: -1, Header: m, Frames: []Frame{{Func: "  main.f()", File: "      /x/y.go:1 +0x1"}}})
+		return &Invalid{Item: ii, Marker: m, WantErr: true, Kind: "race: creation section of an unknown goroutine"}
+	}
+	// goroutine dump: pick a goroutine with frames
+	var gs []int
+	for gi, g := range it.Gors {
+		if len(g.Frames) > 0 && !g.Unavail {
+			gs = append(gs, gi)
+		}
+	}
+	if len(gs) == 0 {
+		return nil
+	}
+	gi := gs[r.Intn(len(gs))]
+	g := &it.Gors[gi]
+	fi := r.Intn(len(g.Frames))
+	if r.Chance(0.5) {
+		m := fmt.Sprintf("### not a dump line %d", tag)
+		g.Frames = append(g.Frames[:fi+1], append([]Frame{{Func: m}}, g.Frames[fi+1:]...)...)
+		return &Invalid{Item: ii, Marker: m, Kind: "goroutine dump: foreign line between frames"}
+	}
+	// a function line without its file line; something must follow it
+	follows := fi < len(g.Frames)-1 || g.Elided != "" || g.Created != nil || gi < len(it.Gors)-1
+	if !follows {
+		return nil
+	}
+	m := fmt.Sprintf("main.verifNoFile%d(0x1)", tag)
+	g.Frames[fi] = Frame{Func: m}
+	return &Invalid{Item: ii, Marker: m, After: true, WantErr: true, Kind: "goroutine dump: function line without file line"}
+}
